@@ -172,7 +172,7 @@ func newTMWired(dir string) *sidecar.TargetsManager {
 }
 
 func recC09() *vkit.Recorder {
-	r := vkit.Rec("C09", "fault_enumeration", "(a) rapid sequences of assignments (0-3 jobs, label values needing JSON escaping, both states, 63-bit hashes and series) applied through the real UpdateTargets, each followed by a fresh TargetsManager.Load on the same directory; (b) pairs (A acknowledged, B being written): a child process performs the real UpdateTargets(B) under RLIMIT_FSIZE = N for every byte offset N of the file (all offsets for files <= 400 bytes, a stratified sample otherwise), snapshots the store directory, the parent then starts twice from each snapshot; (c) old store file name fallback. Non-trivial = torn write strictly inside the file with A != B, or a reload of a non-empty assignment; distinct = digest of (A, B, offset) / of the assignment sequence")
+	r := vkit.Rec("C09", "fault_enumeration", "every TargetsManager outside the size-limited child is wired to a real Injector as in cmd/kvass/sidecar.go; label values include private-use-plane, tag, invisible and control characters; (a) rapid sequences of assignments (0-3 jobs, label values needing JSON escaping, both states, 63-bit hashes and series) applied through the real UpdateTargets, each followed by a fresh TargetsManager.Load on the same directory; (b) pairs (A acknowledged, B being written): a child process performs the real UpdateTargets(B) under RLIMIT_FSIZE = N for every byte offset N of the file (all offsets for files <= 400 bytes, a stratified sample otherwise), snapshots the store directory, the parent then starts twice from each snapshot; (c) old store file name fallback. Non-trivial = torn write strictly inside the file with A != B, or a reload of a non-empty assignment; distinct = digest of (A, B, offset) / of the assignment sequence")
 	r.Assume("a write interrupted at byte N is modelled by RLIMIT_FSIZE=N in a child process (the write syscall stores exactly the bytes below the limit, then fails with EFBIG); the rename/unlink system calls themselves are atomic; one UpdateTargets at a time (the sidecar API handler is the only writer)")
 	return r
 }
